@@ -393,6 +393,76 @@ class Fn:
     def apath_s(self, place_or_local):
         return norm_path(self.apath(place_or_local))
 
+    # ---- symbolic expressions
+    def sym(self, x, depth=0):
+        """Symbolic expression (string) of an operand / place / local, following
+        single-definition temporaries: e.g. `Ne(BitAnd(NonZero::get(arg1.tag_and_id), 9223372036854775808), 0)`.
+        Locals with several definitions are printed as var:<name> / tmp<N>."""
+        if depth > 25:
+            return "..."
+        if isinstance(x, int):
+            place = [x, []]
+        elif isinstance(x, list) and x and x[0] in ("c", "m", "k"):
+            if x[0] == "k":
+                ex = x[3]
+                if "int" in ex:
+                    return ex["int"]
+                if ex.get("static_name"):
+                    return "static:" + ex["static_name"]
+                if ex.get("fn_name"):
+                    return "fn:" + ex["fn_name"]
+                return "const:" + x[2]
+            place = x[1]
+        else:
+            place = x
+        local, proj = place
+        ps = [p for p in proj_str(proj)]
+        def with_proj(base):
+            out = base
+            for p in ps:
+                if p == "*":
+                    if out.startswith("&"):
+                        out = out[1:]
+                    else:
+                        out = "*" + out if not re.match(r"^(arg\d+|var:|tmp|static:)", out) else out
+                else:
+                    out = out + "." + p
+            return out
+        if 1 <= local <= self.argc:
+            return with_proj("arg%d" % local)
+        sd = self.single_def(local)
+        if sd is None:
+            nm = self.local_name(local)
+            return with_proj(("var:%s" % nm) if nm else ("tmp%d" % local))
+        rv = sd[2]
+        k = rv[0]
+        if k == "use":
+            return with_proj(self.sym(rv[1], depth + 1))
+        if k in ("ref", "raw"):
+            return with_proj("&" + self.sym(rv[2], depth + 1))
+        if k == "cast":
+            return with_proj("as<%s>(%s)" % (rv[3], self.sym(rv[2], depth + 1)))
+        if k == "bin":
+            op = rv[1].replace("WithOverflow", "")
+            return with_proj("%s(%s, %s)" % (op, self.sym(rv[2], depth + 1), self.sym(rv[3], depth + 1)))
+        if k == "un":
+            return with_proj("%s(%s)" % (rv[1], self.sym(rv[2], depth + 1)))
+        if k == "discr":
+            return with_proj("discr(%s)" % self.sym(rv[1], depth + 1))
+        if k == "callret":
+            c = rv[1]
+            nm = short_callee(c.name)
+            return with_proj("%s(%s)" % (nm, ", ".join(self.sym(a, depth + 1) for a in c.args)))
+        if k == "agg":
+            kind = rv[1]
+            if isinstance(kind, list) and kind[0] == "adt":
+                nm = "%s::%s" % (kind[1].split("::")[-1], kind[2])
+                return with_proj("%s{%s}" % (nm, ", ".join(self.sym(a, depth + 1) for a in rv[2])))
+            if isinstance(kind, list):
+                return with_proj("%s:%s" % (kind[0], kind[1]))
+            return with_proj("%s(%s)" % (kind, ", ".join(self.sym(a, depth + 1) for a in rv[2])))
+        return with_proj("tmp%d" % local)
+
     def dest_s(self, place):
         """canonical path of an assignment destination: a bare local is itself (not what it
         was copied from); a projected place is resolved through its base reference"""
@@ -469,6 +539,18 @@ class Fn:
         if rv[0] == "bin":
             return ("bin", rv[1], rv[2], rv[3])
         return ("other", rv)
+
+
+def short_callee(name):
+    """`std::num::NonZero::<T>::get` -> `NonZero::get`; `<A as B>::f` -> kept readable"""
+    n = re.sub(r"::<[^<>]*(<[^<>]*>)*[^<>]*>", "", name)  # drop turbofish generics (one nesting level)
+    if n.startswith("<"):
+        m = re.match(r"^<(.+) as (.+)>::(\w+)$", n)
+        if m:
+            return "<%s as %s>::%s" % (m.group(1).split("::")[-1], m.group(2).split("::")[-1], m.group(3))
+        return n
+    parts = n.split("::")
+    return "::".join(parts[-2:])
 
 
 def short(name):
